@@ -45,6 +45,16 @@ def _nd_set(self, key, val, _orig=ND.__setitem__):
 ND.__setitem__ = _nd_set
 
 
+def _nd_get(self, key, _orig=ND.__getitem__):
+    v = _orig(self, key)
+    if isinstance(v, z3.ExprRef) and v.sort() == z3.RealSort():
+        return SReal(v)          # scalar reads take part in python arithmetic (res[idx] += val)
+    return v
+
+
+ND.__getitem__ = _nd_get
+
+
 def load_filters(extra=None, decimal=True):
     symex.FLOAT_AS_DECIMAL = decimal
     subs = dict(np=FNP, int=symex.int_type, range=srange, min=smin, max=smax, len=slen)
